@@ -92,6 +92,15 @@ func runRaceQuery(t *testing.T, c *choice.Stream, r *Result, opt RunOpt) {
 			}
 			sc.rec.FailAt = map[string]int{names[c.Draw("cb.name", len(names))]: 1 + c.Draw("cb.j", 3)}
 		}
+		// a cancellation, deadline or foreign Close may meet a server exception that
+		// is just being read: the disturbance then comes a few decisions after the
+		// exception went out
+		excIdx, excDelta := -1, 0
+		if (fault == "cancel" || fault == "foreign_close" || fault == "deadline") && c.Bool("with.exception", 1, 3) {
+			p := qStart + 1 + c.Draw("with.exception.pos", len(script)-qStart-1)
+			script = append(append([]simnet.Step{}, script[:p]...), simnet.Step{Label: "exception", Send: (&SPacket{Kind: "exception", Exc: DrawExceptionChain(c)}).Encode(cf)})
+			excIdx, excDelta = p, c.Draw("with.exception.delta", 40)
+		}
 		srv := simnet.NewServer(cf.ServerRev, script)
 		conn := e.W.NewConn(srv)
 		cutK := c.Draw("cut.k", 300)
@@ -105,7 +114,18 @@ func runRaceQuery(t *testing.T, c *choice.Stream, r *Result, opt RunOpt) {
 		}
 		if fault == "cancel" || fault == "foreign_close" {
 			done := false
-			e.Sim.AddEnv(&sched.EnvFunc{N: fault, E: func() bool { return !done && e.Sim.Step >= at }, R: func() {
+			excSent := false
+			e.Sim.AddEnv(&sched.EnvFunc{N: fault, E: func() bool {
+				if excIdx >= 0 && !excSent && !done {
+					if srv.ScriptPos() > excIdx {
+						excSent = true
+						at = e.Sim.Step + excDelta
+					} else if e.Sim.Step < 3000 {
+						return false
+					}
+				}
+				return !done && e.Sim.Step >= at
+			}, R: func() {
 				done = true
 				if fault == "cancel" {
 					cancel()
